@@ -66,6 +66,11 @@ class Type4TagCommandError(nfc.tag.TagCommandError):
 
 
 class IsoDepInitiator(object):
+    # A card may ask for more time again and again. The sum of what is
+    # granted for one block is limited to the longest time that a single
+    # request can ask for (WTXM 59 with FWI 14, about 292 seconds).
+    MAX_WTX_TIME = 59 * 4096 * 2**14 / 13.56E6
+
     def __init__(self, clf, fsc, fwt):
         self.clf = clf
         self.pni = 0
@@ -74,15 +79,24 @@ class IsoDepInitiator(object):
         self.delta_fwt = 49152 / 13.56E6
         self.n_retry_ack = min(int(1/self.fwt), 5)
         self.n_retry_nak = self.n_retry_ack
+        self.max_wtxm_sum = int(self.MAX_WTX_TIME / self.fwt)
         self.errno = None  # set by an unrecoverable error
 
     def _exchange(self, data, timeout):
         # Send a block and return the answer. A request for waiting time
         # extension is granted within the same error recovery as the block.
         data = self.clf.exchange(data, timeout)
+        wtxm_sum = 0
         while len(data) > 1 and data[0] & 0b11111110 == 0b11110010:  # WTX
+            wtxm = data[1] & 0x3F
+            if wtxm == 0 or wtxm > 59:
+                raise nfc.clf.ProtocolError("WTXM must be in range 1 to 59")
+            wtxm_sum += wtxm
+            if wtxm_sum > self.max_wtxm_sum:
+                log.error("ISO-DEP too many waiting time extension requests")
+                raise Type4TagCommandError(nfc.tag.TIMEOUT_ERROR)
             log.debug("ISO-DEP waiting time extension")
-            data = self.clf.exchange(data, (data[1] & 0x3F) * self.fwt)
+            data = self.clf.exchange(data, wtxm * self.fwt)
         return data
 
     def exchange(self, command, timeout=None):
